@@ -439,5 +439,5 @@ TRUSTED_BASE = [
     "Coq standard-library axioms for primitive floats/ints (FloatAxioms, PrimFloat, Uint63) where Print Assumptions lists them",
     "hand-written Gallina model of d42 (coq/theories); tie = per-run correspondence on generated cases (harness/)",
     "harness abstraction function Python object -> Coq term (harness/absn.py), case writer, CPython 3.12 executing /repo",
-    "modelled not verified: Python isinstance/==/< on the value kinds, dict ordering/key equality, str ops, round/int/isclose on doubles, re engine on the supported fragment, random range contract, th.PathHolder",
+    "modelled not verified: Python isinstance/==/< on the value kinds, dict ordering/key equality, str ops, round/int/isclose on doubles, re engine on the supported fragment, random range contract, th.PathHolder; repr()/str() taken as total (CPython's default 4300-digit int->str limit is outside the model: validation messages were repaired as F28, the printed form of schemas and declaration/substitution messages for such ints still raise ValueError)",
 ]
